@@ -85,6 +85,14 @@ class Interp(StmtMixin):
             self.frame_check(st, key, ref.t, line)
         if val.ty in ("pydict", "pyset") or (val.ty == "pylist" and is_ref(fty)):
             val = self.box(st, val, fty)
+        elif is_ref(fty) and isinstance(val.ty, tuple) and val.ty[0] == "seq":
+            # a list value stored into an object field: a fresh container object (its content is modelled only if the field is a list_ class)
+            cls_ = fty[1] if fty[1].startswith("list_") else "opaque"
+            d = self.alloc(st, cls_)
+            if cls_ != "opaque":
+                arr_i = self.heap_arr(st, cls_, "items", models.CLASSES[cls_]["fields"]["items"])
+                st.heap[f"{cls_}.items"] = z3.Store(arr_i, d.t, self.coerce(val, models.CLASSES[cls_]["fields"]["items"]).t)
+            val = d
         arr = self.heap_arr(st, owner, field, fty)
         st.heap[key] = z3.Store(arr, ref.t, self.coerce(val, fty).t)
 
